@@ -239,6 +239,67 @@ func C10(r *h.Run) {
 		remaining time.Duration
 		has       bool
 	}
+	// the same *connect.Request sent twice (a retry interceptor, a caller re-sending it), and a
+	// request whose header already carries a timeout: each attempt must carry exactly one timeout
+	// value, the one for the time remaining NOW
+	for _, proto := range []string{"connect", "grpc", "grpcweb"} {
+		for _, stale := range []bool{false, true} {
+			var seen [][]string
+			var remaining []time.Duration
+			var deadline time.Time
+			hname := "Connect-Timeout-Ms"
+			var opts []connect.ClientOption
+			if proto == "grpc" {
+				opts, hname = append(opts, connect.WithGRPC()), "Grpc-Timeout"
+			} else if proto == "grpcweb" {
+				opts, hname = append(opts, connect.WithGRPCWeb()), "Grpc-Timeout"
+			}
+			doer := roundTripFunc(func(req *http.Request) (*http.Response, error) {
+				seen = append(seen, append([]string(nil), req.Header.Values(hname)...))
+				remaining = append(remaining, time.Until(deadline))
+				return nil, fmt.Errorf("verif: stop here")
+			})
+			client := connect.NewClient[wrapperspb.BytesValue, wrapperspb.BytesValue](doer, "http://verif.invalid/verif.Svc/Do", opts...)
+			req := connect.NewRequest(&wrapperspb.BytesValue{})
+			if stale {
+				req.Header().Set(hname, map[string]string{"Connect-Timeout-Ms": "3600000", "Grpc-Timeout": "1H"}[hname])
+			}
+			for _, d := range []time.Duration{5 * time.Hour, 200 * time.Millisecond} {
+				deadline = time.Now().Add(d)
+				ctx, cancel := context.WithDeadline(context.Background(), deadline)
+				_, _ = client.CallUnary(ctx, req)
+				cancel()
+			}
+			in := map[string]any{"proto": proto, "request_header_preset": stale, "attempts": "deadline in 5h, then the same request with a deadline in 200ms"}
+			r.Eval("client_reuse", fmt.Sprint(proto, stale))
+			r.Sample("client_reuse", map[string]any{"in": in, "timeout_headers_per_attempt": seen})
+			for i, vals := range seen {
+				if len(vals) != 1 {
+					r.Fail(h.Failure{Key: proto + "-client/timeout-header-count", Family: "client_reuse", What: fmt.Sprintf("attempt %d carries %d timeout values (the receiver honours the first)", i+1, len(vals)), Input: in, Actual: seen})
+					continue
+				}
+				// the value sent must not exceed the time remaining for THIS attempt
+				var sent time.Duration
+				if hname == "Connect-Timeout-Ms" {
+					n, err := strconv.ParseInt(vals[0], 10, 64)
+					if err != nil {
+						continue
+					}
+					sent = time.Duration(n) * time.Millisecond
+				} else if len(vals[0]) >= 2 {
+					n, err := strconv.ParseInt(vals[0][:len(vals[0])-1], 10, 64)
+					usz, ok := unitSize(vals[0][len(vals[0])-1])
+					if err != nil || !ok {
+						continue
+					}
+					sent = time.Duration(n * usz)
+				}
+				if i < len(remaining) && sent > remaining[i]+5*time.Millisecond {
+					r.Fail(h.Failure{Key: proto + "-client/extended", Family: "client_reuse", What: fmt.Sprintf("attempt %d announces %v although only %v remain", i+1, sent, remaining[i]), Input: in, Actual: seen})
+				}
+			}
+		}
+	}
 	clientCase := func(proto string, d time.Duration) {
 		var cap capture
 		var deadline time.Time
